@@ -9,8 +9,24 @@ class Ctx:
         self.F = Facts(facts_path)
         self.F.summaries()
         # helpers extracted from traversal kernels are spliced back into their callers (see inline.py)
-        from .inline import absorb_kernel_helpers
-        from .normalize import normalize
+        from .inline import absorb_kernel_helpers, inline_direct_closure_calls
+        from .normalize import normalize, normalize_combinators
+        # closures that are bound to a local and called directly are local functions
+        for q, b in list(self.F.bodies.items()):
+            nb = inline_direct_closure_calls(self.F, b)
+            if nb is not None:
+                self.F.bodies[q] = nb
+        # Option / Result combinators whose closures call into the Node / Adjacent API become explicit branches
+        for q, b in list(self.F.bodies.items()):
+            nb = normalize_combinators(self.F, b)
+            if nb is not None:
+                self.F.bodies[q] = nb
+        # iterator consumers / adaptors anywhere whose closure calls into the Node / Graph API (`edges.into_iter().try_for_each(|..| connect ..)`)
+        for q, b in list(self.F.bodies.items()):
+            if b['kind'] != 'Closure' and _k.kernel_params(self.F, b) is None:
+                nb = normalize(self.F, b, only_interesting=True)
+                if nb is not None:
+                    self.F.bodies[q] = nb
         # `ITER.filter(closure)` in a kernel candidate is rewritten into the equivalent loop-with-if form first
         self.F.desugared = {}
         for q, b in list(self.F.bodies.items()):
@@ -22,7 +38,11 @@ class Ctx:
         absorbed, new = absorb_kernel_helpers(
             self.F, lambda b: _k.kernel_params(self.F, b) is not None or
             (b.get('impl_self_q', '').endswith('::node::Node') and not b.get('impl_trait') and b.get('name') in ('connect', 'try_connect', 'disconnect', 'isolate')) or
-            (b.get('impl_trait') in ('serde::de::Visitor', 'serde::Deserialize')))
+            (b.get('impl_trait') in ('serde::de::Visitor', 'serde::Deserialize')) or
+            # public methods of the search builders (entry points): their private non-kernel helpers are part of them
+            ('::node::algo::' in (b.get('impl_self_q') or '') and (b.get('impl_self_q') or '').split('::')[-1] in ('Bfs', 'Dfs', 'Pfs', 'Order') and not b.get('impl_trait') and
+             (self.F.fns.get(b['q'], {}).get('vis') == 'Public' or self.F.fns.get(b['q'], {}).get('reach'))),
+            is_kernel=lambda b: _k.kernel_params(self.F, b) is not None)
         self.F.absorbed = absorbed
         self.F.bodies.update(new)
         self.tier = tier
